@@ -2,6 +2,7 @@
    Reads operation lines on stdin, answers on stdout in the canonical form the Lean driver
    (lean/Main.lean) produces for the same lines. Built from /repo's working tree by tools/vlib.py. */
 #include "common.h"
+#include "alloc.h"
 
 #include "c16.c"
 #include "c17.c"
